@@ -42,11 +42,11 @@ func CopyFile(srcPath, destPath string) (int64, error) {
 // MoveFile moves the specified file from srcPath to destPath.
 // If os.Rename() fails, try to osutil.CopyFile() and then os.Remove().
 func MoveFile(srcPath, destPath string) (err error) {
-	// Renaming a symbolic link onto the very file it points to would replace that file
-	// by a link to itself: the content would be gone and both names unusable.
+	// Renaming a symbolic link onto the file it points to - or onto a link it points
+	// through - would leave a link to itself: the content would be gone or unreachable.
 	if srcInfo, err := os.Lstat(srcPath); err == nil && srcInfo.Mode()&os.ModeSymlink != 0 {
 		if target, err := os.Stat(srcPath); err == nil {
-			if destInfo, err := os.Lstat(destPath); err == nil && os.SameFile(target, destInfo) {
+			if destInfo, err := os.Stat(destPath); err == nil && os.SameFile(target, destInfo) {
 				return &os.PathError{Op: "move", Path: destPath, Err: errSameFile}
 			}
 		}
